@@ -28,6 +28,11 @@ class OutputHandler:
         if self._type == RecordType.NotRecorded:
             return None
         elif self._type == RecordType.Teed:
+            # N.B. The log file is opened here, before the task is started (and
+            # not by the thread that copies the task's output into it): the
+            # task may remove or replace its output directory at any time.
+            if self._file is None:
+                self._file = open(self._output_path, "wb")
             return subprocess.PIPE
         elif self._type == RecordType.OnlyLogged:
             if self._file is None:
@@ -38,12 +43,19 @@ class OutputHandler:
         if self._type != RecordType.Teed:
             return
         assert pipe is not None
-        self._tee_future = ctx.tee_processor.tee_pipe(pipe, stream, self._output_path)
+        assert self._file is not None
+        # The copier thread takes over (and closes) the log file.
+        self._tee_future = ctx.tee_processor.tee_pipe(pipe, stream, self._file)
+        self._file = None
 
     def finish(self):
         if self._type == RecordType.Teed and self._tee_future is not None:
             self._tee_future.result()
             self._tee_future = None
+        elif self._type == RecordType.Teed and self._file is not None:
+            # The task was never started (e.g., launching it failed).
+            self._file.close()
+            self._file = None
         elif self._type == RecordType.OnlyLogged and self._file is not None:
             self._file.close()
             self._file = None
